@@ -37,6 +37,14 @@ Proof. intros [<-|[<-|[]]]; destruct k; reflexivity. Qed.
 Definition plain (t : ttype) (s : bytes) : token :=
   {| ty := t; text := s; v_float := None; v_int := None; v_dur := None; v_bytes := None; v_re := None; v_re_anch := false |}.
 
+(** tokens that carry a library result: the value strconv.ParseFloat / lexerql.ParseDuration / humanize.ParseBytes read from the text *)
+Definition num_tok (txt : bytes) (v : float) : token :=
+  {| ty := TNumber; text := txt; v_float := Some v; v_int := None; v_dur := None; v_bytes := None; v_re := None; v_re_anch := false |}.
+Definition dur_tok (txt : bytes) (ns : Z) : token :=
+  {| ty := TDuration; text := txt; v_float := None; v_int := None; v_dur := Some ns; v_bytes := None; v_re := None; v_re_anch := false |}.
+Definition bytes_tok (txt : bytes) (n : Z) : token :=
+  {| ty := TBytes; text := txt; v_float := None; v_int := None; v_dur := None; v_bytes := Some n; v_re := None; v_re_anch := false |}.
+
 (** the text of an operator / punctuation / keyword token: its spelling in the lexer's table (the first one listed; the round-trip
     proofs never read it, so they hold for whatever text such a token carries -- this choice makes the printed tokens literally
     the ones the lexer produces, see LexParseP) *)
